@@ -14,6 +14,7 @@ pub mod probes;
 pub mod report;
 pub mod rng;
 pub mod tok;
+pub mod zoo;
 pub use futures as futures_reexport;
 
 pub mod prelude {
@@ -22,5 +23,5 @@ pub mod prelude {
     pub use crate::out::*;
     pub use crate::probes::*;
     pub use crate::tok::*;
-    pub use crate::{jn, jna, jnl, jnt, jnta};
+    pub use crate::{jn, jna, jnl, jnla, jnt, jnta, jntla};
 }
